@@ -191,7 +191,8 @@ impl Check for ExportRules {
         let mut ops = Vec::new();
         for _ in 0..n {
             let s = rng.usize_below(n_nodes);
-            match rng.weighted(&[36, 10, 10, 4, 4, 3]) {
+            match rng.weighted(&[36, 10, 10, 4, 4, 3, 3]) {
+                6 => ops.push(jarr!["wlocal", rng.below(n_pfx), rng.below(6)]),
                 0 => {
                     let spec = gen_aspec(&mut rng, Some(node_roles[s]), asn_for(node_roles[s], s), confed);
                     ops.push(jarr!["ann", s, rng.below(n_pfx), spec.to_json()]);
@@ -240,7 +241,7 @@ impl Check for ExportRules {
 
     fn info(&self) -> CheckInfo {
         CheckInfo {
-            rule: "2-4 neighbours drawn from eBGP / iBGP non-client / RR client / RS client / confed-eBGP (confederation on in a third of the runs), each both source and receiver, a third of them add-path receivers (send-max 2-3: the first N paths allowed towards the receiver are expected, by path id); the route-reflector cluster id left at the router id or configured on every neighbour; in a third of the runs a global export policy (configured through the gRPC handlers) whose statement sets MED and / or the next hop (address, self, unchanged, neighbour's address); peer-learned and locally originated routes over 2-5 prefixes with attribute sets drawn per attribute (AS_PATH with SEQ/SET/confed segments and full 255-AS segments, MED, LOCAL_PREF, communities, ORIGINATOR_ID, CLUSTER_LIST, AIGP, unknown transitive / non-transitive attributes, next hops), deliberate AS / ORIGINATOR_ID / CLUSTER_LIST loops; sources with GR+LLGR go down so that LLGR-stale routes exist. At quiescence after every op each receiver's mirror is compared with reference_export(real Loc-RIB ranking, receiver) per the statement, and the RIB must not hold a looped route. non-trivial = some receiver's expected view was non-empty; distinct = hash of seam events".into(),
+            rule: "2-4 neighbours drawn from eBGP / iBGP non-client / RR client / RS client / confed-eBGP (confederation on in a third of the runs), each both source and receiver, a third of them add-path receivers (send-max 2-3: the first N paths allowed towards the receiver are expected, by path id); the route-reflector cluster id left at the router id or configured on every neighbour; in a third of the runs a global export policy (configured through the gRPC handlers) whose statement sets MED and / or the next hop (address, self, unchanged, neighbour's address); peer-learned and locally originated routes (some through AddPath with an AS_PATH only an API client can build - a segment of 256 / 257 / 300 numbers, an empty segment, a segment type that does not exist - which must be refused or exported without bringing a task down; those prefixes are not judged otherwise) over 2-5 prefixes with attribute sets drawn per attribute (AS_PATH with SEQ/SET/confed segments and full 255-AS segments, MED, LOCAL_PREF, communities, ORIGINATOR_ID, CLUSTER_LIST, AIGP, unknown transitive / non-transitive attributes, next hops), deliberate AS / ORIGINATOR_ID / CLUSTER_LIST loops; sources with GR+LLGR go down so that LLGR-stale routes exist. At quiescence after every op each receiver's mirror is compared with reference_export(real Loc-RIB ranking, receiver) per the statement, and the RIB must not hold a looped route. non-trivial = some receiver's expected view was non-empty; distinct = hash of seam events".into(),
             components_real: vec!["export::{process_nlri_change, export_attrs, pre_policy_defaults, export_nexthop, rr_reflect_attrs, with_llgr_stale_community, ibgp_split_horizon_suppress, rs_isolation_suppress, is_as_loop}".into(), "PeerSession::{rx_update,run_select,handle_prefix_update,flush_tx}".into(), "packet::Attribute::{as_path_prepend, as_path_prepend_confed, as_path_strip_confed}, PeerCodec both ways".into(), "TableManager, table::Table".into()],
             components_stubbed: vec!["TCP, clock, listener loop, remote speakers".into()],
             assumptions: vec!["the real RIB's ranking is taken as given (C02 checks it)".into(), "RS-client receivers: only the set of prefixes is judged; confed-eBGP receivers: next hop not judged; MED of locally originated routes towards eBGP not judged (statement silent); with an export policy: the MED it sets is expected towards every role, its next-hop action decides the next hop ('unchanged' = the stored next hop when there is a specified one)".into()],
@@ -349,6 +350,8 @@ async fn run(case: Json, tol: Tolerate) -> Outcome {
     // what each source currently announces (wire-level), and what is locally originated
     let mut announced: BTreeMap<(usize, u64), ASpec> = BTreeMap::new();
     let mut local: BTreeMap<u64, ASpec> = BTreeMap::new();
+    // prefixes whose local path carries an AS_PATH only an API client can build: not judged
+    let mut weird_local: std::collections::BTreeSet<u64> = Default::default();
     let mut nonempty_expected = false;
 
     macro_rules! fail {
@@ -387,7 +390,37 @@ async fn run(case: Json, tol: Tolerate) -> Outcome {
                 let nh = if spec.nh == 0 { Ipv4Addr::UNSPECIFIED } else { Ipv4Addr::new(192, 0, 2, spec.nh) };
                 t.w.tables.insert_route(table::Source::local(), Family::IPV4, packet::PathNlri { path_id: 0, nlri: v4_prefix(op.at(1).as_u64()) }, Some(bgp::Nexthop::V4(nh)), Arc::new(attrs), None, 0);
                 local.insert(op.at(1).as_u64(), spec);
+                weird_local.remove(&op.at(1).as_u64());
                 out.hit("op.local-route");
+            }
+            "wlocal" => {
+                // A route originated through AddPath whose AS_PATH only an API client can build: a
+                // segment of 256 or 257 numbers (the count octet wraps), an empty segment, a segment
+                // type that does not exist. Whatever the daemon makes of it - refuse it, or take it and
+                // export it - must not bring a task down; what the receivers are sent is not judged.
+                let shape = op.at(2).as_u64();
+                let segs: Vec<api::AsSegment> = match shape {
+                    0 => vec![api::AsSegment { r#type: 2, numbers: (0..256u32).map(|k| 64600 + k % 3).collect() }],
+                    1 => vec![api::AsSegment { r#type: 2, numbers: (0..257u32).map(|k| 64600 + k % 3).collect() }],
+                    2 => vec![api::AsSegment { r#type: 2, numbers: vec![] }, api::AsSegment { r#type: 2, numbers: vec![64601] }],
+                    3 => vec![api::AsSegment { r#type: 9, numbers: vec![64601, 64602] }],
+                    4 => vec![api::AsSegment { r#type: 3, numbers: (0..300u32).map(|k| 65100 + k % 2).collect() }, api::AsSegment { r#type: 2, numbers: vec![64601] }],
+                    _ => vec![api::AsSegment { r#type: 0, numbers: vec![1] }, api::AsSegment { r#type: 1, numbers: (0..255u32).collect() }],
+                };
+                let pattrs = vec![
+                    api::Attribute { attr: Some(api::attribute::Attr::Origin(api::OriginAttribute { origin: 0 })) },
+                    api::Attribute { attr: Some(api::attribute::Attr::AsPath(api::AsPathAttribute { segments: segs })) },
+                    api::Attribute { attr: Some(api::attribute::Attr::NextHop(api::NextHopAttribute { next_hop: "192.0.2.9".into() })) },
+                ];
+                let path = api::Path { nlri: Some(crate::convert::nlri_to_api(&v4_prefix(op.at(1).as_u64()))), family: Some(crate::convert::family_to_api(Family::IPV4)), pattrs, ..Default::default() };
+                match t.w.grpc.add_path(tonic::Request::new(api::AddPathRequest { table_type: api::TableType::Global as i32, vrf_id: String::new(), path: Some(path) })).await {
+                    Ok(_) => {
+                        out.hit("op.api-route-with-an-as-path-the-wire-cannot-carry.accepted");
+                        weird_local.insert(op.at(1).as_u64());
+                        local.remove(&op.at(1).as_u64());
+                    }
+                    Err(_) => out.hit("op.api-route-with-an-as-path-the-wire-cannot-carry.refused"),
+                }
             }
             "kernel" => {
                 let spec = ASpec::from_json(op.at(2));
@@ -403,6 +436,7 @@ async fn run(case: Json, tol: Tolerate) -> Outcome {
             "unlocal" => {
                 t.w.tables.remove_route(table::Source::local(), Family::IPV4, packet::PathNlri { path_id: 0, nlri: v4_prefix(op.at(1).as_u64()) }, None, 0);
                 local.remove(&op.at(1).as_u64());
+                weird_local.remove(&op.at(1).as_u64());
             }
             "down" => {
                 let s = op.at(1).as_usize() % n;
@@ -483,14 +517,21 @@ async fn run(case: Json, tol: Tolerate) -> Outcome {
                     }
                 }
             }
+            let weird_keys: std::collections::BTreeSet<String> = weird_local.iter().map(|i| format!("{:?}", v4_prefix(*i))).collect();
             let got_keys: Vec<(String, u32)> = mirror.keys().map(|k| (k.1.clone(), k.2)).collect();
             for k in expected.keys() {
+                if weird_keys.contains(&k.0) {
+                    continue;
+                }
                 if !got_keys.contains(k) {
                     nonempty_expected = true;
                     fail!(format!("propagation/route-not-sent/{}-receiver", recv.name()), "op {} {}: receiver {} ({}, send-max {}) lacks {:?} (path from {} role {:?})", opi, op.to_compact(), r, recv.name(), send_max, k, expected[k].source.remote_addr, expected[k].source.role);
                 }
             }
             for (mk, (attrs, nh)) in &mirror {
+                if weird_keys.contains(&mk.1) {
+                    continue;
+                }
                 let Some(best) = expected.get(&(mk.1.clone(), mk.2)) else {
                     let why = loc.iter().find(|c| format!("{:?}", c.net) == mk.1).map(|c| c.current_paths.iter().map(|b| (b.source.remote_addr, b.source.role, b.local_path_id)).collect::<Vec<_>>());
                     fail!(format!("propagation/route-sent-where-not-allowed/{}-receiver", recv.name()), "op {} {}: receiver {} ({}, send-max {}) holds {} path id {} (RIB paths {:?})", opi, op.to_compact(), r, recv.name(), send_max, mk.1, mk.2, why);
